@@ -29,10 +29,72 @@ def lemma_divmod_range(s: int, n: int, p: int):
         lemma_mul_mono(s // n, -1, n)
 
 
-@contract("mchap.assemble.mutation.base_step", trusted=True, props=["C15x"], opt_result={"1": "cache"})
+@spec_inline
+def UPD(G: A[int, 2], h: int, j: int, a: int) -> A[int, 2]:
+    return arr2(lambda x, y: ite(x == h and y == j, a, G[x, y]))
+
+
+@spec
+def LLKU(reads: A[float, 3], counts: A[int, 1], G: A[int, 2], h: int, j: int, a: int, P: int, N: int, n: int) -> xfloat:
+    """likelihood of the genotype G with cell (h, j) replaced by allele a"""
+    return LLK(reads, counts, UPD(G, h, j, a), P, N, n)
+
+
+@contract("mchap.assemble.mutation.base_step", machine_ints=True, props=["C09", "C01"], opt_result={"1": "cache"})
 def base_step(genotype: A[i1, 2], reads: A[f8, 3], llk: float, h: int, j: int, n_alleles: int, log_unique_haplotypes: float, inbreeding: float, temp: float, read_counts: Opt[A[i8, 1]], cache: Opt[ArrayMap]) -> Tup[float, Opt[ArrayMap]]:
-    requires(0 <= h, h < len(genotype), 0 <= j, j < genotype.shape[1])
-    modifies(genotype)
+    requires(0 <= h, h < len(genotype), 0 <= j, j < genotype.shape[1], len(genotype) <= 127)
+    requires(reads.shape[1] == genotype.shape[1])
+    requires(2 <= n_alleles, n_alleles <= reads.shape[2], n_alleles <= 128)
+    requires(0 <= temp, temp <= 1, 0 <= inbreeding, inbreeding < 1, finite(log_unique_haplotypes))
+    requires(implies(read_counts is not None, len(read_counts) == len(reads) and forall(0, len(reads), lambda r: read_counts[r] >= 1)))
+    requires(forall(0, len(genotype), lambda x: forall(0, genotype.shape[1], lambda y: 0 <= genotype[x, y] and genotype[x, y] < reads.shape[2])))
+    requires(genotype[h, j] < n_alleles)
+    requires(forall(lambda r, y, a: not isninf(reads[r, y, a]) and (isnan(reads[r, y, a]) or reads[r, y, a] >= 0)))
+    # reads have positive probability under every candidate genotype (true for error-rate encoded reads)
+    requires(forall(0, n_alleles, lambda a: not isninf(LLKU(reads, CN, genotype, h, j, a, P, N, len(reads)))))
+    # C09: the carried likelihood is the likelihood of the current genotype
+    requires(llk == LLK(reads, CN, genotype, P, N, len(reads)))
+    requires(implies(cache is not None, AMOK(cache) and cache[2] == P * N and cache[0].shape[1] >= reads.shape[2]))
+    requires(implies(cache is not None, COH(cache, reads, CN, P, N, len(reads))))
+    modifies(genotype, cache)
+    # C09: ... and so is the returned one, for the updated genotype
+    ensures(result[0] == LLK(reads, CN, genotype, P, N, len(reads)))
+    ensures(implies(cache is not None, AMOK(result[1]) and result[1][2] == cache[2] and result[1][0].shape[1] == cache[0].shape[1]))
+    ensures(implies(cache is not None, COH(result[1], reads, CN, P, N, len(reads))))
+    # only cell (h, j) may change, and it stays a valid allele of this SNV
+    ensures(forall(0, P, lambda x: forall(0, N, lambda y: implies(x != h or y != j, genotype[x, y] == old(genotype)[x, y]))))
+    ensures(0 <= genotype[h, j], genotype[h, j] < n_alleles)
+    with defs():
+        P = len(genotype)
+        N = genotype.shape[1]
+        CN = ones_if_none(read_counts)
+    with loop(0):
+        invariant(0 <= i, i <= n_alleles, n_options == i - ite(i > current_nucleotide, 1, 0), current_nucleotide == old(genotype)[h, j])
+        invariant(implies(i > current_nucleotide, isninf(log_accept[current_nucleotide])))
+        invariant(len(llks) == n_alleles, len(log_accept) == n_alleles, len(dosage) == ploidy, ploidy == P)
+        invariant(forall(0, P, lambda x: forall(0, N, lambda y: implies(x != h or y != j, genotype[x, y] == old(genotype)[x, y]))))
+        invariant(0 <= genotype[h, j], genotype[h, j] < n_alleles)
+        invariant(forall(0, i, lambda a: llks[a] == LLKU(reads, CN, old(genotype), h, j, a, P, N, len(reads))))
+        invariant(forall(0, i, lambda a: not isnan(log_accept[a]) and implies(not isninf(log_accept[a]), log_accept[a] <= 0)))
+        invariant(implies(cache is not None, AMOK(cache) and cache[2] == P * N and cache[0].shape[1] >= reads.shape[2]))
+        invariant(implies(cache is not None, COH(cache, reads, CN, P, N, len(reads))))
+        with head():
+            unfold(LLKU(reads, CN, old(genotype), h, j, i, P, N, len(reads)))
+            unfold(LLKU(reads, CN, old(genotype), h, j, current_nucleotide, P, N, len(reads)))
+            lemma_llk_ext(reads, CN, old(genotype), UPD(old(genotype), h, j, current_nucleotide), P, N, len(reads))
+    with after_stmt("genotype[h, j] = i"):
+        lemma_llk_ext(reads, CN, genotype, UPD(old(genotype), h, j, i), P, N, len(reads))
+    with before_stmt("probabilities[current_nucleotide] = 1 - probabilities.sum()"):
+        # the vector handed to random_choice is a probability distribution
+        PB = val(probabilities)
+        ax_exp_mono_all()
+        lemma_exp_neg_log(n_options)
+        lemma_fsum_bound(PB, 0, n_alleles, exp(-real(log(n_options))), current_nucleotide)
+    with after_stmt("probabilities[current_nucleotide] = 1 - probabilities.sum()"):
+        lemma_fsum_upd(PB, probabilities, 0, n_alleles, current_nucleotide)
+    with exit_():
+        unfold(LLKU(reads, CN, old(genotype), h, j, choice, P, N, len(reads)))
+        lemma_llk_ext(reads, CN, genotype, UPD(old(genotype), h, j, choice), P, N, len(reads))
 
 
 @contract("mchap.assemble.mutation.compound_step", machine_ints=True, props=["C15"], opt_result={"1": "cache"})
